@@ -267,6 +267,11 @@ func (p *PIDZero) blockUntilRunnableReady(r Stateable) error {
 		case err := <-p.errorChan:
 			return err
 		case <-startupCtx.Done():
+			if p.ctx.Err() != nil {
+				// startupCtx is a child of p.ctx: the supervisor was cancelled, this is no timeout
+				logger.Debug("Context canceled, stopping runnables")
+				return nil
+			}
 			return fmt.Errorf("timeout waiting for runnable to start: %w", startupCtx.Err())
 		case <-p.ctx.Done():
 			logger.Debug("Context canceled, stopping runnables")
